@@ -1,3 +1,236 @@
-"""C06 (under construction): lemma installation shared with C08."""
+"""C06 — sigma stays positive, grows by at most tau per game, and limit_sigma caps it.
 
-from .lemmas import install_lemmas  # noqa: F401
+R6.2 the value stored before the update is sqrt(sigma^2 + tau^2) of the same player's prior sigma and the resolved
+tau (one-line formula from the statement, compared in normal form); R6.1/R6.3 the posterior sigma stored by the
+kernel is (that inflated value) x F with the interval of F inside (0, 1] — kappa floor below, delta >= 0 above;
+R6.4 positivity and finiteness; R6.5 with limit_sigma in force every player's final sigma is <= its own prior
+(order domain on the clamp); premise R17.1 (no cancelling CDF) for the Thurstone-Mosteller delta >= 0.
+"""
+
+from __future__ import annotations
+
+from fractions import Fraction
+from typing import Any, Dict, List, Optional
+
+from ..ai.values import INF, Interval, Num, Ptr, short
+from ..ai.world import Box
+from ..frontend import Program, norm_text
+from ..poly import p_add, p_atom, p_mul, p_pow, show, to_poly
+from ..report import Instance, Report
+from .harness import parallel_map, run_op, where
+from .lemmas import install_lemmas
+
+BOXES = {
+    "sigma>=1e-4,tau>=0": dict(sigma=(1e-4, 10.0), tau=(0.0, 10.0)),
+    "sigma>=0,tau>0": dict(sigma=(0.0, 10.0), tau=(0.0, 10.0), tau_open_lo=True),
+}
+
+
+def inflated_poly(idx, tau_atoms) -> List:
+    """Candidates sqrt(sigma0^2 + T^2) for the admissible resolved-tau atoms T."""
+    s0 = p_atom(("in", "IN.player", "sigma", idx))
+    out = []
+    for t in tau_atoms:
+        T = p_atom(t)
+        out.append((t, p_pow(p_add(p_mul(s0, s0), p_mul(T, T)), Fraction(1, 2))))
+    return out
+
+
+def _factors(sym):
+    if sym is None:
+        return []
+    if sym[0] == "mul":
+        return _factors(sym[1]) + _factors(sym[2])
+    return [sym]
+
+
+def _job(job) -> List[Dict[str, Any]]:
+    idx, sel, tau_c, ls, boxname, gam = job
+    prog = Program()
+    roles = prog.roles()[idx]
+    mod = roles.model.module.name
+    entry = f"{roles.model.name}.rate"
+    line = roles.model.lookup("rate").node.lineno
+    case = f"{sel}, tau={tau_c}, limit_sigma={ls}, {boxname}, gamma={gam}"
+    out: List[Dict[str, Any]] = []
+
+    def inst(rule, verdict, construct, message="", detail=None, m=mod, fn=entry, ln=line):
+        out.append(dict(rule=rule, verdict=verdict, module=m, function=fn, construct=construct, line=ln, message=message, detail=dict(detail or {}, case=case)))
+
+    lem: Dict[str, str] = {}
+
+    def setup(w):
+        install_lemmas(w, prog, roles, lem)
+        w.I.track_sym_ranges = True
+
+    kw = {"tau": tau_c, "limit_sigma": ls}
+    if sel != "none":
+        kw[sel] = "list-of-mixed-int-float-bool"
+    try:
+        oc = run_op(prog, roles, "rate", box=Box(ranges=True, **BOXES[boxname]), custom_gamma=(gam == "callback"), setup=setup, **kw)
+    except Exception as e:
+        inst("R6.3", "UNDECIDED", case, f"abstract evaluation failed: {type(e).__name__}: {e}")
+        return out
+    if oc.undecided or not oc.returned:
+        inst("R6.3", "UNDECIDED", case, "; ".join(oc.undecided[:3]) or "rate does not return")
+        return out
+    I = oc.I
+    evs = I.events
+    tau_atoms = [("param", "arg.tau")] if tau_c not in ("None", "omitted") else [("param", "model.tau"), ("call", "float", ("param", "model.tau"))]
+    writes = [(i, ev) for i, ev in enumerate(evs) if ev.kind == "write" and ev.data["origin"] == "input:player" and ev.data["field"] == "sigma"]
+    mu_first = next((i for i, ev in enumerate(evs) if ev.kind == "write" and ev.data["origin"] == "input:player" and ev.data["field"] == "mu"), None)
+    failed_lemmas = sorted({f"{ev.data['name']}: {ev.data['why']}" for ev in evs if ev.kind == "lemma-failed"})
+    if not writes or mu_first is None:
+        inst("R6.3", "UNDECIDED", case, "no sigma/mu stores found")
+        return out
+    infl = [(i, ev) for i, ev in writes if i < mu_first]
+    kern = [(i, ev) for i, ev in writes if i > mu_first and not any(t.endswith(":limit_sigma") for t in getattr(ev.data.get("val"), "prov", ()))]
+    clamp = [(i, ev) for i, ev in writes if any(t.endswith(":limit_sigma") for t in getattr(ev.data.get("val"), "prov", ()))]
+    # ---------------------------------------------------------------- R6.1 / R6.2 inflation before the update
+    if not infl:
+        inst("R6.1", "VIOLATED", f"inflation before the update ({case})", "no store to sigma precedes the update of mu: the prior variance is not inflated by tau before the update (or is inflated after it)")
+    strong_infl = [i for i, ev in enumerate(evs) if ev.kind == "strong-update" and ev.data["loc"] == "IN.player" and ev.data["field"] == "sigma" and i < mu_first]
+    for i, ev in infl[:1]:
+        m, fn, ln = where(ev)
+        v = ev.data["val"]
+        tgt = ev.data["ptr"]
+        got = to_poly(v.sym) if isinstance(v, Num) else None
+        cands = inflated_poly(tgt.idx, tau_atoms)
+        ok = got is not None and any(got == c for _, c in cands)
+        inst("R6.2", "HOLDS" if ok else "VIOLATED", f"inflation: {norm_text(ev.node, 80)}",
+             "" if ok else f"the value stored before the update is {show(got, 220)}, not sqrt(sigma^2 + tau^2) of the same player's sigma and the resolved tau: the per-game growth bound of the statement does not hold",
+             {"term": show(got, 200)}, m, fn, ln)
+        full = bool(strong_infl)
+        inst("R6.1", "HOLDS" if full else "VIOLATED", f"every passed rating is inflated before the update ({case})",
+             "" if full else "the inflation store is not an unconditional full traversal of all teams and players preceding the update (conditional, partial, or after the kernel)", {}, m, fn, ln)
+    # ---------------------------------------------------------------- R6.3 / R6.4 the kernel multiplies by a factor in (0, 1]
+    if not kern:
+        inst("R6.3", "VIOLATED", f"posterior sigma ({case})", "the update kernel stores no sigma")
+    seen_nodes = set()
+    for i, ev in kern:
+        if id(ev.node) in seen_nodes:
+            continue
+        seen_nodes.add(id(ev.node))
+        m, fn, ln = where(ev)
+        v = ev.data["val"]
+        tgt = ev.data["ptr"]
+        c = f"posterior sigma = inflated sigma x F, F in (0, 1]: {norm_text(ev.node, 60)}"
+        if not isinstance(v, Num) or v.sym is None:
+            inst("R6.3", "UNDECIDED", c, f"the stored sigma has no symbolic term ({short(v)})", {}, m, fn, ln)
+            continue
+        facs = _factors(v.sym)
+        cands = inflated_poly(tgt.idx, tau_atoms)
+        base = [f for f in facs if any(to_poly(f) == cnd for _, cnd in cands)]
+        rest = [f for f in facs if f not in base[:1]]
+        if len(base) < 1:
+            inst("R6.3", "VIOLATED", c, "the stored sigma is not a multiple of the same player's tau-inflated prior sigma "
+                 f"(factors: {[show(to_poly(f), 80) for f in facs][:4]}): the update uses an un-inflated or another player's sigma", {}, m, fn, ln)
+            continue
+        F = Interval.point(1.0)
+        unknown = False
+        for f in rest:
+            r = I.sym_rng.get(f)
+            if r is None:
+                unknown = True
+                break
+            F = F.mul(r)
+        if unknown:
+            inst("R6.3", "UNDECIDED", c, "no interval recorded for a factor of the stored sigma", {}, m, fn, ln)
+            continue
+        ok = F.gt0() and F.hi <= 1.0
+        if ok:
+            inst("R6.3", "HOLDS", c, "", {"F": str(F), "lemmas": sorted(lem)}, m, fn, ln)
+        else:
+            why = ("the factor can exceed 1 (delta < 0 possible, '1 +' instead of '1 -', or min instead of max)" if F.hi > 1.0 else "the factor can reach 0 or below (kappa floor missing)")
+            inst("R6.3", "UNDECIDED" if failed_lemmas and F.hi > 1.0 else "VIOLATED", c,
+                 f"interval of the variance factor F is {F}: {why}; the posterior sigma is not bounded by sqrt(prior^2 + tau^2)" + (f" [lemma not discharged: {failed_lemmas[0]}]" if failed_lemmas else ""),
+                 {"F": str(F)}, m, fn, ln)
+        okp = v.rng is not None and v.rng.gt0() and v.rng.finite()
+        inst("R6.4", "HOLDS" if okp else ("UNDECIDED" if failed_lemmas else "VIOLATED"), f"posterior sigma is finite and > 0: {norm_text(ev.node, 60)}",
+             "" if okp else f"interval of the stored sigma is {v.rng}", {"range": str(v.rng)}, m, fn, ln)
+    # ---------------------------------------------------------------- R6.5 the clamp
+    if ls == "truthy":
+        if not clamp:
+            inst("R6.5", "VIOLATED", f"limit_sigma cap ({case})", "with limit_sigma in force no store caps the posterior sigma")
+        last_kernel = max((i for i, _ in kern), default=-1)
+        covering = [i for i, ev in enumerate(evs) if ev.kind == "strong-update" and ev.data["loc"] == "IN.player" and ev.data["field"] == "sigma" and i > last_kernel]
+        if clamp:
+            inst("R6.5", "HOLDS" if covering else "VIOLATED", f"the cap visits every returned player ({case})",
+                 "" if covering else "the capping stores are not an unconditional full traversal of all teams and players after the update (a team or player is skipped)")
+        seen_nodes = set()
+        for i, ev in clamp:
+            if id(ev.node) in seen_nodes:
+                continue
+            seen_nodes.add(id(ev.node))
+            m, fn, ln = where(ev)
+            v = ev.data["val"]
+            tgt = ev.data["ptr"]
+            prior = ("in", "IN.player", "sigma", tgt.idx)
+            rels = ev.data.get("rels") or {}
+            ok = False
+            why = ""
+            if isinstance(v, Num) and v.sym is not None:
+                if v.sym == prior:
+                    ok = True
+                else:
+                    r = rels.get((v.sym, prior))
+                    if r is None and (prior, v.sym) in rels:
+                        r = frozenset({"LT": "GT", "GT": "LT", "EQ": "EQ", "UN": "UN"}[x] for x in rels[(prior, v.sym)])
+                    ok = r is not None and r <= frozenset({"LT", "EQ"})
+                    why = f"the stored value (term {show(to_poly(v.sym), 120)}) is not known to be <= the player's own prior sigma on this branch (relation {sorted(r) if r else 'unknown'})"
+            inst("R6.5", "HOLDS" if ok else "VIOLATED", f"capped value <= own prior: {norm_text(ev.node, 70)}",
+                 "" if ok else (why or "the capped value has no symbolic term") + " — the cap compares against the wrong value (inflated or another player's) or the branches are swapped", {}, m, fn, ln)
+    for k, why in lem.items():
+        inst("R6.L", "ASSUMED", f"lemma {k}", why)
+    return out
+
+
+def run(prog: Program, rep: Report, tier: str = "quick") -> None:
+    roles = prog.roles()
+    rep.explanation = (
+        "The per-call bound is decided from the shape and intervals of the stored terms: the value stored before the update is, in normal form, sqrt(sigma^2 + tau^2) of the same "
+        "player's prior and the resolved tau, stored by an unconditional full traversal that precedes the update; the sigma stored by the kernel factors as that inflated value times "
+        "F, and the interval analysis on the input box proves F in (0, 1] (kappa floor below; delta >= 0 above: by intervals for Bradley-Terry, with lemmas L-A/L-PL for Plackett-Luce, and for "
+        "Thurstone-Mosteller with the interval facts w, wt >= 0 that hold for the non-cancelling CDF form decided by C17 R17.1); with limit_sigma in force every player's final sigma is, on each branch of the cap, "
+        "either its own prior or a value the branch condition orders below it. The history clause follows by induction from the per-call bound."
+    )
+    rep.rule_text = "per model: {ranks, scores, none} x {tau None, given} x {limit_sigma on, off} x 2 boxes (+ abstract callback); one instance per stored-sigma site and rule"
+    rep.assume("input box of C08; gamma callback result >= 0")
+    rep.trust("abstract interpreter osv/ai (interval domain, value numbering, order domain); osv/poly.py for the one-line inflation formula")
+    rep.not_decided = ["rounding in the last ulp of sigma_in x F", "w, wt <= 1 (only their lower bound is needed here)"]
+    # premise: the CDF primitive has no cancelling form (otherwise A-W is known to be false, DESIGN §6 D4)
+    from .c17 import run as c17_run
+    from ..report import Report as _R
+
+    sub = _R("C17", tier, "other")
+    try:
+        c17_run(prog, sub, tier)
+        bad = [i for i in sub.instances if i.rule == "R17.1" and i.verdict == "VIOLATED"]
+        for i in bad:
+            rep.violated("R6.3p", module=i.module, function=i.function, construct=i.construct, line=i.line,
+                         message="premise of delta >= 0 for the Thurstone-Mosteller models fails: " + i.message)
+        if not bad:
+            rep.holds("R6.3p", module="openskill.models.weng_lin.common", function="phi_major", construct="premise R17.1: the CDF primitive has no cancelling asymptote")
+    except Exception as e:
+        rep.undecided("R6.3p", module="openskill.models.weng_lin.common", function="phi_major", construct="premise R17.1", message=f"{type(e).__name__}: {e}")
+    jobs = []
+    for i in range(len(roles)):
+        for sel in ("ranks", "scores", "none"):
+            jobs.append((i, sel, "any", "truthy", "sigma>=1e-4,tau>=0", "default"))
+        jobs.append((i, "ranks", "None", "falsy", "sigma>=1e-4,tau>=0", "default"))
+        jobs.append((i, "ranks", "truthy", "truthy", "sigma>=0,tau>0", "default"))
+        jobs.append((i, "ranks", "any", "falsy", "sigma>=1e-4,tau>=0", "callback"))
+    seen = set()
+    for lst in parallel_map(_job, jobs):
+        for d in lst:
+            key = (d["rule"], d["verdict"], d["module"], d["function"], d["construct"])
+            if key in seen:
+                continue
+            seen.add(key)
+            rep.add(Instance(d["rule"], d["verdict"], d["module"], d["function"], d["construct"], d["line"], d.get("message", ""), d.get("detail", {})))
+    n = len(roles)
+    rep.floor("R6.1", n)
+    rep.floor("R6.2", n)
+    rep.floor("R6.3", n)
+    rep.floor("R6.4", n)
+    rep.floor("R6.5", 2 * n)
